@@ -123,8 +123,24 @@ func hash(s, typ string, circ, ds bool) (string, error) {
 	return h, nil
 }
 
+// emptyDeclined: the property speaks of "every sequence the hash function accepts"; it does not say that a sequence
+// without any letter has to be one of them.
+func emptyDeclined(s, typ string) bool {
+	if s != "" {
+		return false
+	}
+	if _, err := seqhash.Hash("", typ, false, false); err != nil {
+		vk.Count("empty sequence declined by the library (not judged)", 1)
+		return true
+	}
+	return false
+}
+
 func check(c Case) error {
 	dna := c.Seq.String() // T spelling, upper case
+	if emptyDeclined(dna, "DNA") {
+		return nil
+	}
 	rna := toU(dna)
 	n := len(dna)
 	rcDNA := ref.RevComp(dna)
@@ -387,6 +403,9 @@ const proteinAlphabet = "ACDEFGHIKLMNPQRSTVWYUO*BXZ"
 
 func checkProtein(c ProteinCase) error {
 	s := c.Seq.String()
+	if emptyDeclined(s, "PROTEIN") {
+		return nil
+	}
 	for _, circ := range []bool{false, true} {
 		h0, err := hash(s, "PROTEIN", circ, false)
 		if err != nil {
